@@ -14,6 +14,8 @@ pub fn info() {
             "Index out of bounds": RuntimeErrorKind::IndexOutOfBounds.as_str(),
             "Type mismatch": RuntimeErrorKind::TypeMismatch.as_str(),
             "Invalid index": RuntimeErrorKind::InvalidIndex.as_str(),
+            "Uninitialized variable": RuntimeErrorKind::UninitializedVariable.as_str(),
+            "Array too deep": RuntimeErrorKind::ArrayTooDeep.as_str(),
             "Process denied": RuntimeErrorKind::ProcessDenied.as_str(),
             "Process unsupported": RuntimeErrorKind::ProcessUnsupported.as_str(),
             "Process spawn failed": RuntimeErrorKind::ProcessSpawnFailed("").as_str(),
@@ -39,6 +41,7 @@ pub fn info() {
             "reserved": SyntaxError::ReservedKeyword.as_str(),
             "expected-statement": SyntaxError::ExpectedStatement.as_str(),
             "invalid-target": SyntaxError::InvalidAssignmentTarget.as_str(),
+            "nesting-too-deep": SyntaxError::NestingTooDeep.as_str(),
         },
         "lex": {
             "unexpected-char": LexError::UnexpectedChar.as_str(),
